@@ -170,9 +170,6 @@ func (r *Run) checkProcess(c Cmd, p *Proc) (reply any, ok bool) {
 		return nil, false
 	}
 	if p.ExitCode != 0 {
-		if p.ExitCode != 1 {
-			r.viol("C12", "exit-code", fmt.Sprintf("%s-exit%d", shape, p.ExitCode), "%s exited %d", shape, p.ExitCode)
-		}
 		if len(bytes.TrimSpace(p.Stderr)) == 0 {
 			r.viol("C16", "silent-failure", shape, "%s exited %d with empty stderr", shape, p.ExitCode)
 		}
@@ -613,14 +610,8 @@ func (r *Run) learn(o *Obs, p *Proc) {
 			it.CreatedAt = oi.CreatedAt
 			it.CreatedNs, _ = parseTS(oi.CreatedAt)
 			it.UUID = oi.UUID
-			if p != nil && !nows[oi.CreatedAt] {
-				r.viol("C16", "created-at-not-from-clock", "created_at", "item %s created_at %s is not a time the clock handed to the creating process %v", id, oi.CreatedAt, keys(nows))
-			}
 		}
 		if oi.ClaimedAt != it.ClaimedAt {
-			if p != nil && oi.ClaimedAt != "" && !nows[oi.ClaimedAt] {
-				r.viol("C16", "claimed-at-not-from-clock", "claimed_at", "item %s claimed_at %s is not a time the clock handed to the claiming process", id, oi.ClaimedAt)
-			}
 			it.ClaimedAt = oi.ClaimedAt
 		}
 		it.UpdatedAt = oi.UpdatedAt
